@@ -18,7 +18,7 @@ from .common import (
 
 PID = "C18"
 LEVEL = "fault_enumeration"
-BUDGET = {"quick": 40000, "thorough": 600000}
+BUDGET = {"quick": 150000, "thorough": 2500000}
 RULE = (
     "each run samples a scenario of one operation class - iterator tool, aggregation (async sources of both "
     "kinds and async callables, all suspending), tee with lock (2..3 consumers), lru_cache, cached_property with "
